@@ -398,7 +398,10 @@ class PilotManager(rpu.ClientComponent):
 
         with self._pcb_lock:
 
-            for cb_dict in self._callbacks[rpc.PILOT_STATE].values():
+            # callbacks may (un)register callbacks: iterate over a copy.  A
+            # failing callback must not keep the other callbacks (nor the
+            # remaining state updates) from being handled.
+            for cb_dict in list(self._callbacks[rpc.PILOT_STATE].values()):
 
                 cb      = cb_dict['cb']
                 cb_data = cb_dict['cb_data']
@@ -407,12 +410,15 @@ class PilotManager(rpu.ClientComponent):
               #         % (self.uid, pilot.state, cb_name, cb_data)
                 self._log.debug('pmgr calls cb %s for %s', pilot.uid, cb)
 
-                if _USE_BULK_CB:
-                    if cb_data: cb([pilot], cb_data)
-                    else      : cb([pilot])
-                else:
-                    if cb_data: cb(pilot, state, cb_data)
-                    else      : cb(pilot, state)
+                try:
+                    if _USE_BULK_CB:
+                        if cb_data: cb([pilot], cb_data)
+                        else      : cb([pilot])
+                    else:
+                        if cb_data: cb(pilot, state, cb_data)
+                        else      : cb(pilot, state)
+                except Exception:
+                    self._log.exception('cb error (%s)', cb)
 
 
     # --------------------------------------------------------------------------
